@@ -250,7 +250,17 @@ func tbReconnect(c *TBCase, b *natsim.Broker, h *Hist, out *Outcome) {
 					h.Violate("C09", "owned-subject-not-subscribed", "tierb", fmt.Sprintf("%s: %s lies under %d owned pattern(s) but the broker has no matching subscription of the service: %v", when, pr.s, pr.o, b.Subscriptions(id)))
 				}
 				if pr.o == 1 && cnt > 1 {
-					h.Violate("C09", "redundant-subscription", "tierb", fmt.Sprintf("%s: %s is delivered %d times: %v", when, pr.s, cnt, b.Subscriptions(id)))
+					var matching []string
+					for _, sub := range b.Subscriptions(id) {
+						if simconn.SubjectMatches(sub, pr.s) {
+							matching = append(matching, sub)
+						}
+					}
+					sig := redundancySignature(pr.s, resSet, matching)
+					if sig == "" {
+						sig = "tierb"
+					}
+					h.Violate("C09", "redundant-subscription", sig, fmt.Sprintf("%s: %s is delivered %d times: %v", when, pr.s, cnt, b.Subscriptions(id)))
 				}
 			}
 		}
